@@ -54,7 +54,7 @@ func init() {
 		QuickRuns: 2500, QuickSecs: 75, ThoroughRuns: 40000, ThoroughSecs: 700,
 		RequiredProbes: []string{"reject.withdraw.non-l1-token", "reject.withdraw.insufficient", "deposit.refunded"}})
 
-	c13 := &l2Profile{Prop: "C13", Reimport: 2, Blocks: [2]int{12, 60}, MaxTx: 5, Crash: 10,
+	c13 := &l2Profile{Prop: "C13", Reimport: 2, Blocks: [2]int{12, 60}, MaxTx: 5, Crash: 10, Plans: true,
 		W: map[string]int{"addval": 35, "rmval": 30, "params": 12, "exec": 10, "relay": 4, "send": 2},
 		NonTriv: func(w *l2World) bool {
 			return w.succ["addval"] >= 1 && w.succ["rmval"] >= 1 && w.r.Probes["validators.updates-returned"] >= 2
